@@ -96,7 +96,7 @@ func (g *jgen) opt() bool {
 	return g.r.Intn(2) == 0
 }
 
-var specials = []string{"é", "ß", "<", ">", "&", "'", "日", "😀", "/", "\\", "\"", " "}
+var specials = []string{"é", "ß", "<", ">", "&", "'", "日", "😀", "/", "\\", "\"", " ", "\\u003c", "\\u0026", "\u2028"}
 
 func (g *jgen) text(lo, hi int) string {
 	if hi < lo {
@@ -203,6 +203,9 @@ func (g *jgen) value(t *sTy, tags [][2]string) interface{} {
 		}
 		return g.r.Intn(2) == 0
 	case "time":
+		if _, sv := tagOf(tags, "svRequired"); !sv && g.r.Intn(6) == 0 {
+			return "0001-01-01T00:00:00Z" // the zero time is a timestamp like any other
+		}
 		return []string{"2020-01-01T00:00:00Z", "2023-12-31T23:59:59Z", "1999-06-15T12:30:00Z"}[g.r.Intn(3)]
 	case "any":
 		return []interface{}{"some data", 42, map[string]interface{}{"a": 1, "b": "x"}, []interface{}{1, 2}}[g.r.Intn(4)]
